@@ -50,12 +50,8 @@ inductive StrItem where
   | u (d0 d1 d2 d3 : HexDigit)           -- \uXXXX
   deriving Repr, DecidableEq
 
-def utf8 (u : Nat) : Bytes :=
-  if u < 0x80 then [UInt8.ofNat u]
-  else if u < 0x800 then [UInt8.ofNat (0xC0 + u / 64), UInt8.ofNat (0x80 + u % 64)]
-  else if u < 0x10000 then [UInt8.ofNat (0xE0 + u / 4096), UInt8.ofNat (0x80 + u / 64 % 64), UInt8.ofNat (0x80 + u % 64)]
-  else [UInt8.ofNat (0xF0 + u / 262144), UInt8.ofNat (0x80 + u / 4096 % 64), UInt8.ofNat (0x80 + u / 64 % 64),
-        UInt8.ofNat (0x80 + u % 64)]
+/-- UTF-8 (RFC 3629) of a scalar value -/
+def utf8 (u : Nat) : Bytes := utf8Encode u
 
 def isScalar (cp : Nat) : Bool := cp < 0x110000 && !(0xD800 ≤ cp && cp < 0xE000)
 
@@ -157,9 +153,9 @@ def intercalateB (sep : UInt8) : List Bytes → Bytes
 
 mutual
   def Doc.text : Doc → Bytes
-    | .null => strBytes "null"
-    | .true_ => strBytes "true"
-    | .false_ => strBytes "false"
+    | .null => [110, 117, 108, 108]        -- null
+    | .true_ => [116, 114, 117, 101]       -- true
+    | .false_ => [102, 97, 108, 115, 101]  -- false
     | .num n => n.text
     | .str items => strText items
     | .arr w [] => 91 :: w.text ++ [93]
@@ -369,9 +365,9 @@ def readDoc : Nat → Bytes → Option (Doc × Bytes)
   | 0, _ => none
   | fuel + 1, bs =>
     match bs with
-    | 110 :: _ => (startsWith (strBytes "null") bs).map (Doc.null, ·)
-    | 116 :: _ => (startsWith (strBytes "true") bs).map (Doc.true_, ·)
-    | 102 :: _ => (startsWith (strBytes "false") bs).map (Doc.false_, ·)
+    | 110 :: _ => (startsWith [110, 117, 108, 108] bs).map (Doc.null, ·)
+    | 116 :: _ => (startsWith [116, 114, 117, 101] bs).map (Doc.true_, ·)
+    | 102 :: _ => (startsWith [102, 97, 108, 115, 101] bs).map (Doc.false_, ·)
     | 34 :: r => (readItems (r.length + 1) r).map fun (is, r') => (Doc.str is, r')
     | 91 :: r =>
       let (w0, r0) := readWs r
